@@ -6,7 +6,7 @@
 //! write back until it is flushed (as a TLS stream or a `BufWriter` does). What comes back is compared after removing what
 //! legitimately differs (the Date header; HTTP/2 header blocks are reduced to their first byte).
 //!
-//! line: `autocmp <write-buffering 0|1> <upgrade 0|1> <client bytes hex> ; <chunk size>*`   (the chunk list is cycled)
+//! line: `autocmp <io 0 plain | 1 write-buffering | 2 initialising reader | 3 both> <upgrade 0|1> <client bytes hex> ; <chunk size>*`   (the chunk list is cycled)
 //! obs : `ref=<h1|h2> same=<0|1> auto=<digest> single=<digest>`
 use crate::rng::Rng;
 use crate::sniff::{hex, unhex};
@@ -36,8 +36,11 @@ pub fn gen(r: &mut Rng, _i: u64) -> String {
         "PUT /x HTTP/1.1\r\nHost: example.org\r\nContent-Length: 0\r\n\r\n",
         "OPTIONS * HTTP/1.1\r\nHost: example.org\r\n\r\n",
         "garbage that is no request\r\n\r\n",
+        "pri * http/2.0\r\n\r\nsm\r\n\r\n",
+        "PRI * HTTP/2.0\r\n\r\nsm\r\n\r\n\x00\x00\x00\x04\x00\x00\x00\x00\x00",
     ];
-    let bufw = r.chance(1, 2) as u8;
+    // 0 plain, 1 holds writes back until flushed, 2 initialises its read buffer before reading, 3 both
+    let bufw = r.below(4);
     let (upgrade, bytes): (u8, Vec<u8>) = match r.below(8) {
         0 | 1 => (1, b"GET /up HTTP/1.1\r\nHost: example.org\r\nConnection: upgrade\r\nUpgrade: hdverif\r\n\r\n".to_vec()),
         2 | 3 => {
@@ -62,9 +65,14 @@ pub fn gen(r: &mut Rng, _i: u64) -> String {
 }
 
 /// the server's end of the pipe; with `hold` every write stays in a buffer until `poll_flush`
-struct ServerIo { io: DuplexStream, hold: bool, buf: Vec<u8> }
+struct ServerIo { io: DuplexStream, hold: bool, init: bool, buf: Vec<u8> }
 impl AsyncRead for ServerIo {
-    fn poll_read(mut self: Pin<&mut Self>, cx: &mut Context<'_>, buf: &mut ReadBuf<'_>) -> Poll<std::io::Result<()>> { Pin::new(&mut self.io).poll_read(cx, buf) }
+    fn poll_read(mut self: Pin<&mut Self>, cx: &mut Context<'_>, buf: &mut ReadBuf<'_>) -> Poll<std::io::Result<()>> {
+        // `init`: a reader that zero-initialises the whole unfilled part of the buffer before it reads into it (a legal tokio
+        // pattern: initialised > filled afterwards)
+        if self.init { buf.initialize_unfilled(); }
+        Pin::new(&mut self.io).poll_read(cx, buf)
+    }
 }
 impl ServerIo {
     fn drain(&mut self, cx: &mut Context<'_>) -> Poll<std::io::Result<()>> {
@@ -123,7 +131,7 @@ impl tower::Service<http::Request<Body>> for HSvc {
     fn call(&mut self, req: http::Request<Body>) -> HFut { Box::pin(handler(req)) }
 }
 
-async fn exchange<P>(protocol: P, hold: bool, upgrade: bool, bytes: &[u8], chunks: &[usize]) -> Vec<u8>
+async fn exchange<P>(protocol: P, hold: bool, init: bool, upgrade: bool, bytes: &[u8], chunks: &[usize]) -> Vec<u8>
 where
     P: Protocol<HSvc, ServerIo, Body>,
     P::Connection: Future + Send + 'static,
@@ -131,7 +139,7 @@ where
 {
     let (mut client, server) = tokio::io::duplex(64 * 1024);
     let svc = HSvc;
-    let conn = protocol.serve_connection_with_upgrades(ServerIo { io: server, hold, buf: vec![] }, svc);
+    let conn = protocol.serve_connection_with_upgrades(ServerIo { io: server, hold, init, buf: vec![] }, svc);
     let task = tokio::spawn(async move { let _ = conn.await; });
     let (mut off, mut k) = (0usize, 0usize);
     while off < bytes.len() {
@@ -188,16 +196,16 @@ fn digest(s: &str) -> String {
 
 pub fn run(toks: &[&str]) -> String {
     if toks.len() < 5 || toks[3] != ";" { return "bad-line".into(); }
-    let (hold, upgrade) = (toks[0] == "1", toks[1] == "1");
+    let (hold, init, upgrade) = (toks[0] == "1" || toks[0] == "3", toks[0] == "2" || toks[0] == "3", toks[1] == "1");
     let bytes = unhex(toks[2]);
     let chunks: Vec<usize> = toks[4..].iter().filter_map(|t| t.parse().ok()).collect();
     if bytes.is_empty() || chunks.is_empty() { return "bad-line".into(); }
     let h2 = bytes.starts_with(PREFACE);
     let rt = tokio::runtime::Builder::new_current_thread().enable_all().start_paused(true).build().unwrap();
     rt.block_on(async move {
-        let auto = exchange(hyperdriver::server::AutoBuilder::default(), hold, upgrade, &bytes, &chunks).await;
-        let single = if h2 { exchange(hyper::server::conn::http2::Builder::new(hyperdriver::bridge::rt::TokioExecutor::new()), hold, upgrade, &bytes, &chunks).await }
-                     else { exchange(hyper::server::conn::http1::Builder::new(), hold, upgrade, &bytes, &chunks).await };
+        let auto = exchange(hyperdriver::server::AutoBuilder::default(), hold, init, upgrade, &bytes, &chunks).await;
+        let single = if h2 { exchange(hyper::server::conn::http2::Builder::new(hyperdriver::bridge::rt::TokioExecutor::new()), hold, init, upgrade, &bytes, &chunks).await }
+                     else { exchange(hyper::server::conn::http1::Builder::new(), hold, init, upgrade, &bytes, &chunks).await };
         let (a, s) = (normalise(h2, &auto), normalise(h2, &single));
         if std::env::var("HDV_DEBUG").is_ok() { eprintln!("auto  : {a}\nsingle: {s}"); }
         format!("ref={} same={} auto={} single={}", if h2 { "h2" } else { "h1" }, (a == s) as u8, digest(&a), digest(&s))
